@@ -276,6 +276,15 @@ Qed.
 Lemma get_queue_total : S_get_queue_total.
 Proof. intros qlen tasks. reflexivity. Qed.
 
+Lemma get_queue_keeps_unfinished : S_get_queue_keeps_unfinished.
+Proof.
+  unfold S_get_queue_keeps_unfinished. intros qlen tasks h st Hin Hst.
+  eexists. split; [apply get_queue_total|].
+  apply in_map_iff. exists (h, st). split; [reflexivity|].
+  apply filter_In. split; [exact Hin|].
+  simpl. destruct (N.eqb_spec st 2) as [E|E]; [contradiction | reflexivity].
+Qed.
+
 Lemma get_queue_refuted : S_get_queue_refuted.
 Proof.
   exists 0%nat, [(1%N, 2%N)]. split.
@@ -293,3 +302,4 @@ Print Assumptions snap_save_ok_or_error.
 Print Assumptions snap_refuted_truncation.
 Print Assumptions get_queue_total.
 Print Assumptions get_queue_refuted.
+Print Assumptions get_queue_keeps_unfinished.
